@@ -592,9 +592,22 @@ def other_prime(t):
     return c
 
 
+# a DSA domain in which only the primality of p fails: p = p1 p2 with p1 = p2 = 1 mod q (both prime), g of order q modulo p (found at
+# authoring time with Python integers; the judge gets the factorisation as the compositeness witness and certifies g^q = 1 itself)
+DSA_COMPOSITE_P = (0xa37a97ea5f6aee9775c79974abf70ca03610191c56f19ffbf2af2b31433c9c49e91b304cb8494a2e8432de9cb25f9fa8f54fce67b959be3382b4adfc9ae3e499,
+                   0xa42b7ab56fc457f6baf80cbeb3de7759b9cd610d68b306493038d4e3d69630e674dff59fe7894fbb9c579e6afdd3313fa4558d7cd50a5d2eab151992d42c4ae7,
+                   0xc7dc3c4d919548376722ac24917776740a962275,
+                   0x42e54de1e7015b44a944f6c83ae682221844f3f6d573203bd6b86988fa7315a74393ef92d2372f555eb15c0e0ada123506e07b1bcce6e43b9ed98a4a2c3a58cceab1c94dd5add3d3875f437ac63d60010aec4ec899cb18cfa0dd5dc0eaa1dcff5b8b74f49465e441f74392817c1a01d863aab6f0ad9f6a4cd62df0acb5d91c87)
+
+
 def dsa_corr(c, t):
     t = dict(t)
     p, q = t["p"], t["q"]
+    if c == "p composite,consistent":
+        p1, p2, q2, g2 = DSA_COMPOSITE_P
+        x = abs(t["x"]) % (q2 - 2) + 1
+        FACTORS[p1 * p2] = (p1, p2)
+        return {"p": p1 * p2, "q": q2, "g": g2, "x": x, "y": pow(g2, x, p1 * p2)}
     if c == "y+p":
         t["y"] += p
     elif c == "y=0":
